@@ -105,7 +105,7 @@ theorem foldl_max_widthOk (l : List Nat) (a : Nat) (ha : unpackerWidthOk a = tru
 theorem blockwise_block_exact (s : Stats) (_hg : s.gcd ≠ 0) (block : List Nat) (rest : Bytes)
     (hrest : ∀ b ∈ rest, b < 256)
     (hv : ∀ v ∈ block, s.min ≤ v ∧ v < 2 ^ 64 ∧ s.gcd ∣ v - s.min)
-    (hfull : 8 ∣ (bwBlockEnc s block).1.width * block.length)
+    (hfull : 8 ∣ (bwBlockEnc s block).1.width * block.length ∨ rest = [])
     (i : Nat) (hi : i < block.length) :
     s.min + (BitVec.ofNat 64 s.gcd * ((bwBlockEnc s block).1.line.eval i + BitVec.ofNat 64
         (unpackGet (bwBlockEnc s block).1.width i
@@ -137,8 +137,14 @@ theorem blockwise_block_exact (s : Stats) (_hg : s.gcd ≠ 0) (block : List Nat)
       rw [← hw]
       exact (foldl_max_ge (offs.map computeNumBits) 0).2 _ (List.mem_map.mpr ⟨_, List.getElem_mem hj, rfl⟩)
     exact Nat.lt_of_lt_of_le h1 (Nat.pow_le_pow_right (by decide) h2)
-  have hfull' : 8 ∣ w * offs.length := by rw [hol]; exact hfull
-  rw [unpackGet_append w hwok offs hbound rest hrest hfull' i (by omega), hoget i hi]
+  have hget : unpackGet w i (pack w offs ++ rest) = offs[i]'(by omega) := by
+    rcases hfull with hfull | hnil
+    · have hfull' : 8 ∣ w * offs.length := by rw [hol]; exact hfull
+      exact unpackGet_append w hwok offs hbound rest hrest hfull' i (by omega)
+    · subst hnil
+      rw [List.append_nil]
+      exact unpack_pack w hwok offs hbound i (by omega)
+  rw [hget, hoget i hi]
   rw [BitVec.ofNat_toNat, BitVec.setWidth_eq]
   have e : line.eval i + (BitVec.ofNat 64 (norm[i]'(by omega)) - line.eval i) = BitVec.ofNat 64 (norm[i]'(by omega)) := by
     bv_omega
